@@ -102,6 +102,7 @@ func init() {
 }
 
 func runC18(p *core.Program, r *core.Report) {
+	noSingledOutValue(rc{p, r}, []string{"func.go"}, nil)
 	noAnswerBeforeTheScan(rc{p, r}, "gogu.(RType).Retry", "gogu.(RType).RetryWithDelay")
 	// ---- Once
 	if fn := mustFunc(p, r, "gogu.Once"); fn != nil {
